@@ -255,9 +255,11 @@ impl Mul<usize> for ZatBalance {
     type Output = Option<ZatBalance>;
 
     fn mul(self, rhs: usize) -> Option<ZatBalance> {
-        let rhs: i64 = rhs.try_into().ok()?;
-        self.0
-            .checked_mul(rhs)
+        // Widen the operands instead of narrowing `rhs` to `i64`, so that the product is
+        // exact for every `usize` (in particular `0 * rhs` is zero, not `None`).
+        i128::from(self.0)
+            .checked_mul(i128::try_from(rhs).ok()?)
+            .and_then(|i| i64::try_from(i).ok())
             .and_then(|i| ZatBalance::try_from(i).ok())
     }
 }
